@@ -201,7 +201,7 @@ func (this *UTFCodec) Forward(src, dst []byte) (uint, uint, error) {
 	dstIdx++
 	dst[dstIdx] = byte(n)
 	dstIdx++
-	estimate := dstIdx + 6
+	estimate := dstIdx + 6 + 3*n // the symbol map emitted below is part of the output
 
 	for i := 0; i < n; i++ {
 		r := n - 1 - i
